@@ -209,7 +209,12 @@ impl<'a> World<'a> {
                 let o = ev["o"].as_u64().unwrap() as usize;
                 let mode = match &mut self.iters[h.unwrap()] {
                     It::Plain(f) => {
-                        f.set_offset(o);
+                        // both public paths: the inherent method and the PositionProvider trait method
+                        if o % 2 == 0 {
+                            PositionProvider::set_offset(f, o);
+                        } else {
+                            f.set_offset(o);
+                        }
                         f.current_mode()
                     }
                     It::Pos(f) => {
